@@ -8,7 +8,7 @@ use serde_json::{json, Value};
 use crate::engine::{catch, h64, par_range, run_generated, Ctx, Stats};
 use crate::oracle::page::{data_len, pixel_mask, read_pixel, total_len, REAL_SIZES};
 
-pub const RULE: &str = "cases are (width, height, origin, operation sequence): sizes from an exhaustive box (0..=24 x 0..=26 quick, 0..=48 x 0..=40 thorough), the 11 real sign sizes and 1x255, 255x1, 300x9, 1000x64; origin Page::new or Page::from_bytes over a borrowed buffer with generated header/pixel/padding bytes; sequences of 0..40 Set/SetAll/Get with ~25 % of coordinates just outside the bounds (x=w, y=h, +1, next multiple of 8, u32::MAX); judged after every step against a boolean grid and the initial bytes (every pixel, id, dimensions, length, header, padding; out-of-bounds must panic and leave the bytes identical). An exhaustive sweep sets/clears every coordinate of [0,w]x[0,h] on all-off and all-on pages of every box size. Non-trivial = a page with w*h > 0 whose sequence has an effective set and an out-of-bounds probe at the exact edge, or whose height is not a multiple of 8; distinct by hash of the case (sweep: by construction)";
+pub const RULE: &str = "cases are (width, height, origin, operation sequence): sizes from an exhaustive box (0..=24 x 0..=26 quick, 0..=48 x 0..=40 thorough), the 11 real sign sizes and 1x255, 255x1, 300x9, 1000x64, 2x257, 3x300, 1x1030 (taller than 256 rows); origin Page::new or Page::from_bytes over a borrowed buffer with generated header/pixel/padding bytes; sequences of 0..40 Set/SetAll/Get with ~25 % of coordinates just outside the bounds (x=w, y=h, +1, next multiple of 8, u32::MAX); judged after every step against a boolean grid and the initial bytes (every pixel, id, dimensions, length, header, padding; out-of-bounds must panic and leave the bytes identical). An exhaustive sweep sets/clears every coordinate of [0,w]x[0,h] on all-off and all-on pages of every box size. Non-trivial = a page with w*h > 0 whose sequence has an effective set and an out-of-bounds probe at the exact edge, or whose height is not a multiple of 8; distinct by hash of the case (sweep: by construction)";
 pub const ASSUMPTIONS: &[&str] = &[
     "initial pixel values of a page built over raw bytes are read with the documented layout (byte 4 + x*ceil(h/8) + y/8, bit y%8)",
     "the unused high bits of a column's last byte are not constrained for in-bounds operations (the statement is silent and set_all_pixels fills whole bytes)",
@@ -203,7 +203,7 @@ fn dims_strategy(boxw: u32, boxh: u32) -> impl Strategy<Value = (u32, u32)> {
     prop_oneof![
         12 => (0..=boxw, 0..=boxh),
         3 => proptest::sample::select(REAL_SIZES.to_vec()),
-        1 => proptest::sample::select(vec![(1u32, 255u32), (255, 1), (300, 9), (1000, 64)]),
+        1 => proptest::sample::select(vec![(1u32, 255u32), (255, 1), (300, 9), (1000, 64), (2, 257), (3, 300), (1, 1030)]),
     ]
 }
 
@@ -271,13 +271,13 @@ pub fn run(ctx: &Ctx) {
 
     // the real sizes and the large ones: every edge coordinate
     let mut sizes: Vec<(u32, u32)> = REAL_SIZES.to_vec();
-    sizes.extend_from_slice(&[(1, 255), (255, 1), (300, 9), (1000, 64)]);
+    sizes.extend_from_slice(&[(1, 255), (255, 1), (300, 9), (1000, 64), (2, 256), (2, 257), (3, 300), (1, 1030)]);
     par_range(ctx, "edges-real-sizes", sizes.len() as u64, |i, st| {
         let (w, h) = sizes[i as usize];
         let next8 = (h / 8 + 1) * 8;
         for seed in 0..2u64 {
             let mut ops = vec![];
-            for (x, y) in [(w, 0), (0, h), (w, h), (w - 1, h), (w, h - 1), (0, next8 - 1), (0, next8), (u32::MAX, 0), (0, u32::MAX), (w - 1, h - 1), (0, 0)] {
+            for (x, y) in [(w, 0), (0, h), (w, h), (w - 1, h), (w, h - 1), (0, next8 - 1), (0, next8), (u32::MAX, 0), (0, u32::MAX), (w - 1, h - 1), (0, 0), (0, h / 2), (w - 1, h.min(257) - 1), (0, h.saturating_sub(256).min(h - 1))] {
                 ops.push(Op::Set(x, y, true));
                 ops.push(Op::Get(x, y));
                 ops.push(Op::Set(x, y, false));
